@@ -46,9 +46,24 @@ def _mine(path):
     return isinstance(p, str) and p.startswith(PREFIX) and _FS is not None
 
 
+class _Files(dict):
+    """path -> content; every assignment stamps a modification time (a logical tick: later writes
+    are newer), which os.stat / os.path.getmtime report."""
+
+    def __init__(self, *a, **kw):
+        super().__init__(*a, **kw)
+        self.tick = 0
+        self.mtimes = {}
+
+    def __setitem__(self, key, value):
+        self.tick += 1
+        self.mtimes[key] = self.tick
+        super().__setitem__(key, value)
+
+
 class FS:
     def __init__(self, log=None, seam=None):
-        self.files = {}
+        self.files = _Files()
         self.log = log
         self.seam = seam               # callable(label) -> may raise SimCrash
         self.fault_fn = None           # (op, path, index) -> fault | None
@@ -373,7 +388,8 @@ def _os_stat(path, *a, **kw):
     if p not in _FS.files:
         raise FileNotFoundError(errno.ENOENT, "No such file or directory", p)
     size = len(_FS.files[p])
-    return os.stat_result((0o100600, 0, 0, 1, 0, 0, size, 0, 0, 0))
+    mt = 1_700_000_000 + getattr(_FS.files, "mtimes", {}).get(p, 0)
+    return os.stat_result((0o100600, 0, 0, 1, 0, 0, size, mt, mt, mt))
 
 
 def _os_access(path, mode, *a, **kw):
